@@ -157,6 +157,30 @@ def workload(make, make2, role):
         out.append(returns_holding(Res("r2")))
         print("after return")
         out.append(type(ident(v)).__name__)
+    elif role == "suspended-gen":
+        # one generator still suspended when the tracing block ends, one closed early, one abandoned
+        g = gen2(v, make2())
+        next(g)
+        globals()["_suspended"] = g
+        g2 = gen2(1, 2)
+        next(g2)
+        g2.close()
+        g3 = gen2(1.5, None)
+        next(g3)
+        del g3
+        out.append(type(ident(v)).__name__)
+    elif role == "big-container-lifetime":
+        # containers of 40 and 300 finalizable elements passed to traced calls and then dropped: they (and their elements) are
+        # released when the program drops them, not when the tracer gets round to it
+        for n in (40, 300):
+            lst = [Res("b%d" % i) for i in range(n)]
+            out.append(len(ident(lst)))
+            d = {i: Res("d%d" % i) for i in range(n)}
+            out.append(len(wrap(d)))
+            print("dropping", n)
+            del lst, d
+            print("dropped", n)
+        out.append(type(ident(v)).__name__)
     elif role == "consume":
         r = ident(v)
         try:
@@ -169,4 +193,4 @@ def workload(make, make2, role):
 
 
 ROLES = ["arg", "kwarg", "elem", "nested-elem", "dictkey", "setelem", "yield", "return-only", "receiver", "method-arg",
-         "coro-arg", "global", "nested-arg", "caller-local", "exception", "consume", "finalizer"]
+         "coro-arg", "global", "nested-arg", "suspended-gen", "big-container-lifetime", "caller-local", "exception", "consume", "finalizer"]
